@@ -24,11 +24,13 @@ SKELETONS = [
     ("userinfo-escape", "http://u%", "@x.fr/"),
     ("fragment-escape", "http://x.fr/#%", ""),
     ("path-escape-tail", "http://x.fr/docs/%", ""),
+    ("idn-host", "http://www.xn--tlrama-bvab.fr/a", "?q"),
+    ("idn-refused-host", "http://xn--example-.com/a", ""),
     ("ipv6", "http://u@[::1]", "/x"),
     ("ipv6-port", "https://[2001:db8::1]:", "/x?k=v"),
 ]
 BOUNDS = {
-    "quick": "21 URL skeletons (hole in path tail/middle/root, username, password, host tail, port, query key/value, fragment, before the scheme, scheme separator, after the host, whole string, and right after a '%' in path / query value / username / fragment) x every hole string of length 0..2 (3 for the path / query holes after a '%') over all code points x quoted x strip_fragment (all four combinations up to length 1, one combination per skeleton beyond) x default_protocol in {https, http}; plus holes made of 2 escape tokens (+ one free character in the path) with symbolic hex digits (bytes >= 0x80) in path / query value / username / fragment; plus an escaped 3-byte character (lead byte EF, symbolic continuation escapes) in the password",
+    "quick": "23 URL skeletons (hole in path tail/middle/root, username, password, host tail, port, query key/value, fragment, before the scheme, scheme separator, after the host, whole string, and right after a '%' in path / query value / username / fragment; two with a concrete punycode host, one the idna codec accepts and one it refuses) x every hole string of length 0..2 (3 for the path / query holes after a '%') over all code points x quoted x strip_fragment (all four combinations up to length 1, one combination per skeleton beyond) x default_protocol in {https, http}; plus holes made of 2 escape tokens (+ one free character in the path) with symbolic hex digits (bytes >= 0x80) in path / query value / username / fragment; plus an escaped 3-byte character (lead byte EF, symbolic continuation escapes) in the password",
     "thorough": "same skeletons, holes of length 0..4 (3 in netloc positions)",
 }
 STUBS = ["UTF-8 codec, urllib.parse.quote, dict table lookups, regex matcher (see C14)", "stdlib urlsplit / SplitResult properties / urlunsplit interpreted from source",
